@@ -21,9 +21,10 @@ def wrapRes (m : WrapMode) (r : Bool × Nat) : Bool × Nat :=
   | .alwaysFail => (false, r.2)
 
 theorem good_wrapper (d : Node) (cs : TL) (m : WrapMode) (hk : d.kind = .wrapper m) (hc : cleanNode d = true) (htmo : d.tmo = none)
-    (hcl : CleanL cs = true) (hgoodc : ∀ j c, cs.get? j = some c → Good c) (hlen : 1 ≤ cs.length) : Good (.node d cs) := by
+    (hcl : CleanL cs = true) (hgoodc : ∀ j c, cs.get? j = some c → Good c) (hlen : 1 ≤ cs.length) :
+    Good (.node d cs) ∧ ((∀ j c, cs.get? j = some c → Live c) → Live (.node d cs)) := by
   have hser : d.isSerial = true := serial_of_kind d (by simp [Node.isLeaf, Node.isPar, hk])
-  refine good_serial d cs hc hser htmo hcl hgoodc
+  refine both_serial d cs hc hser htmo hcl hgoodc (by simp [mult, hk])
     (fun d' nx F => d'.kind = .wrapper m ∧ ((nx = .start 0 [] none ∧ 0 ∈ F) ∨ ∃ s w, nx = .finish s w))
     (fun _ nx => match nx with | .finish s w => some (s, w) | .start _ _ _ => (evalAt cs 0).map (wrapRes m))
     (fun _ nx => match nx with | .finish _ _ => [] | .start _ _ _ => visitAt cs 0)
@@ -60,9 +61,10 @@ theorem good_wrapper (d : Node) (cs : TL) (m : WrapMode) (hk : d.kind = .wrapper
 /-! ### CompositeAction -/
 
 theorem good_composite (d : Node) (cs : TL) (hk : d.kind = .composite) (hc : cleanNode d = true) (htmo : d.tmo = none)
-    (hcl : CleanL cs = true) (hgoodc : ∀ j c, cs.get? j = some c → Good c) (hlen : 1 ≤ cs.length) : Good (.node d cs) := by
+    (hcl : CleanL cs = true) (hgoodc : ∀ j c, cs.get? j = some c → Good c) (hlen : 1 ≤ cs.length) :
+    Good (.node d cs) ∧ ((∀ j c, cs.get? j = some c → Live c) → Live (.node d cs)) := by
   have hser : d.isSerial = true := serial_of_kind d (by simp [Node.isLeaf, Node.isPar, hk])
-  refine good_serial d cs hc hser htmo hcl hgoodc
+  refine both_serial d cs hc hser htmo hcl hgoodc (by simp [mult, hk])
     (fun d' nx F => d'.kind = .composite ∧ nx = .start 0 [] none ∧ 0 ∈ F)
     (fun _ nx => match nx with | .finish s w => some (s, w) | .start _ _ _ => evalAt cs 0)
     (fun _ nx => match nx with | .finish _ _ => [] | .start _ _ _ => visitAt cs 0)
@@ -82,7 +84,7 @@ theorem good_composite (d : Node) (cs : TL) (hk : d.kind = .composite) (hc : cle
 /-! ### two-phase kinds (IfElseAction, SwitchAction): child 0, then at most one branch child -/
 
 theorem good_twophase (d : Node) (cs : TL) (hc : cleanNode d = true) (hser : d.isSerial = true) (htmo : d.tmo = none)
-    (hcl : CleanL cs = true) (hgoodc : ∀ j c, cs.get? j = some c → Good c) (hlen : 1 ≤ cs.length)
+    (hcl : CleanL cs = true) (hgoodc : ∀ j c, cs.get? j = some c → Good c) (hlen : 1 ≤ cs.length) (hmult : mult d = 1)
     (branch : Bool × Nat → Next)
     (hstart : ∀ d', d'.kind = d.kind → (serialStart {} d' cs.length) = (d', .start 0 [] none))
     (hnext : ∀ d' r, d'.kind = d.kind → serialNext d' cs.length 0 r.1 r.2 = (d', branch r))
@@ -93,8 +95,9 @@ theorem good_twophase (d : Node) (cs : TL) (hc : cleanNode d = true) (hser : d.i
         | some r => match branch r with | .finish s w => some (s, w) | .start k _ _ => evalAt cs k)
     (hvisit : visit (.node d cs) = visitAt cs 0 ++ match evalAt cs 0 with
         | none => []
-        | some r => match branch r with | .finish _ _ => [] | .start k _ _ => visitAt cs k) : Good (.node d cs) := by
-  refine good_serial d cs hc hser htmo hcl hgoodc
+        | some r => match branch r with | .finish _ _ => [] | .start k _ _ => visitAt cs k) :
+    Good (.node d cs) ∧ ((∀ j c, cs.get? j = some c → Live c) → Live (.node d cs)) := by
+  refine both_serial d cs hc hser htmo hcl hgoodc hmult
     (fun d' nx F => d'.kind = d.kind ∧
       ((nx = .start 0 [] none ∧ ∀ k, k < cs.length → k ∈ F) ∨ (∃ k, 1 ≤ k ∧ nx = .start k [] none ∧ k ∈ F) ∨ ∃ s w, nx = .finish s w))
     (fun _ nx => match nx with
@@ -150,9 +153,10 @@ def ifElseBranch (a b : Bool) (r : Bool × Nat) : Next :=
 
 theorem good_ifElse (d : Node) (cs : TL) (a b : Bool) (hk : d.kind = .ifElse a b) (hc : cleanNode d = true) (htmo : d.tmo = none)
     (hcl : CleanL cs = true) (hgoodc : ∀ j c, cs.get? j = some c → Good c)
-    (hlen : cs.length = 1 + (if a then 1 else 0) + (if b then 1 else 0)) : Good (.node d cs) := by
+    (hlen : cs.length = 1 + (if a then 1 else 0) + (if b then 1 else 0)) :
+    Good (.node d cs) ∧ ((∀ j c, cs.get? j = some c → Live c) → Live (.node d cs)) := by
   have hser : d.isSerial = true := serial_of_kind d (by simp [Node.isLeaf, Node.isPar, hk])
-  refine good_twophase d cs hc hser htmo hcl hgoodc (by omega) (ifElseBranch a b) ?_ ?_ ?_ ?_ ?_ ?_
+  refine good_twophase d cs hc hser htmo hcl hgoodc (by omega) (by simp [mult, hk]) (ifElseBranch a b) ?_ ?_ ?_ ?_ ?_ ?_
   · intro d' hk'; rw [hk] at hk'; simp [serialStart, hk']
   · intro d' r hk'; rw [hk] at hk'
     unfold serialNext ifElseBranch; rw [hk']
@@ -179,9 +183,10 @@ def switchBranch (n : Nat) (hd : Bool) (r : Bool × Nat) : Next :=
   else .finish false 8
 
 theorem good_switch (d : Node) (cs : TL) (hd : Bool) (hk : d.kind = .switch hd) (hc : cleanNode d = true) (htmo : d.tmo = none)
-    (hcl : CleanL cs = true) (hgoodc : ∀ j c, cs.get? j = some c → Good c) (hlen : 2 ≤ cs.length) : Good (.node d cs) := by
+    (hcl : CleanL cs = true) (hgoodc : ∀ j c, cs.get? j = some c → Good c) (hlen : 2 ≤ cs.length) :
+    Good (.node d cs) ∧ ((∀ j c, cs.get? j = some c → Live c) → Live (.node d cs)) := by
   have hser : d.isSerial = true := serial_of_kind d (by simp [Node.isLeaf, Node.isPar, hk])
-  refine good_twophase d cs hc hser htmo hcl hgoodc (by omega) (switchBranch cs.length hd) ?_ ?_ ?_ ?_ ?_ ?_
+  refine good_twophase d cs hc hser htmo hcl hgoodc (by omega) (by simp [mult, hk]) (switchBranch cs.length hd) ?_ ?_ ?_ ?_ ?_ ?_
   · intro d' hk'; rw [hk] at hk'; simp [serialStart, hk']
   · intro d' r hk'; rw [hk] at hk'
     unfold serialNext switchBranch; rw [hk']
@@ -246,10 +251,11 @@ theorem dropTL_lt_ne : ∀ (cs : TL) (j : Nat), j < cs.length → ∃ t ts, drop
   exact ⟨c, _, dropTL_get cs j c hc⟩
 
 theorem good_seq (d : Node) (cs : TL) (m : Mode3) (hk : d.kind = .seq m) (hc : cleanNode d = true) (htmo : d.tmo = none)
-    (hcl : CleanL cs = true) (hgoodc : ∀ j c, cs.get? j = some c → Good c) : Good (.node d cs) := by
+    (hcl : CleanL cs = true) (hgoodc : ∀ j c, cs.get? j = some c → Good c) :
+    Good (.node d cs) ∧ ((∀ j c, cs.get? j = some c → Live c) → Live (.node d cs)) := by
   have hser : d.isSerial = true := serial_of_kind d (by simp [Node.isLeaf, Node.isPar, hk])
   obtain ⟨c1, c2, c3, c4, c5, c6, c7, c8, c9, c10, c11⟩ := clean_fields d hc
-  refine good_serial d cs hc hser htmo hcl hgoodc
+  refine both_serial d cs hc hser htmo hcl hgoodc (by simp [mult, hk])
     (fun d' nx F => d'.kind = .seq m ∧
       ((∃ onFail, nx = .start d'.index [] onFail ∧ d'.index < cs.length ∧ ∀ k, d'.index ≤ k → k < cs.length → k ∈ F) ∨ ∃ s w, nx = .finish s w))
     (fun _ nx => match nx with | .finish s w => some (s, w) | .start i _ _ => evalSeq m (dropTL cs i) (true, 0))
@@ -322,10 +328,11 @@ theorem good_seq (d : Node) (cs : TL) (m : Mode3) (hk : d.kind = .seq m) (hc : c
 /-! ### IfThenAction -/
 
 theorem good_ifThen (d : Node) (cs : TL) (hk : d.kind = .ifThen) (hc : cleanNode d = true) (htmo : d.tmo = none)
-    (hcl : CleanL cs = true) (hgoodc : ∀ j c, cs.get? j = some c → Good c) (heven : cs.length % 2 = 0) : Good (.node d cs) := by
+    (hcl : CleanL cs = true) (hgoodc : ∀ j c, cs.get? j = some c → Good c) (heven : cs.length % 2 = 0) :
+    Good (.node d cs) ∧ ((∀ j c, cs.get? j = some c → Live c) → Live (.node d cs)) := by
   have hser : d.isSerial = true := serial_of_kind d (by simp [Node.isLeaf, Node.isPar, hk])
   obtain ⟨c1, c2, c3, c4, c5, c6, c7, c8, c9, c10, c11⟩ := clean_fields d hc
-  refine good_serial d cs hc hser htmo hcl hgoodc
+  refine both_serial d cs hc hser htmo hcl hgoodc (by simp [mult, hk])
     (fun d' nx F => d'.kind = .ifThen ∧
       ((nx = .start (2 * d'.index) [] none ∧ 2 * d'.index + 1 < cs.length ∧ ∀ k, 2 * d'.index ≤ k → k < cs.length → k ∈ F) ∨
        (nx = .start (2 * d'.index + 1) [] none ∧ 2 * d'.index + 1 < cs.length ∧ (2 * d'.index + 1) ∈ F) ∨ ∃ s w, nx = .finish s w))
